@@ -100,6 +100,7 @@ fn msgq_pop_front_fifo() {
     assert!(q.queue.len() == 3 && matches!(q.queue[2], UserRxMessage::Error(_)) && q.len_bytes == 2,
         "C03: an error marker is appended behind everything already queued");
     std::mem::forget(q);
+    kani::cover!(true, "end of harness reachable (assumptions satisfiable, no unconditional failure)");
 }
 
 // @verif id=MSGQ.empty props=C01 tier=quick
@@ -115,4 +116,5 @@ fn msgq_new_and_empty_pop() {
     let m = q.pop_front();
     assert!(m.is_none(), "C01: nothing to read from an empty queue");
     std::mem::forget(q);
+    kani::cover!(true, "end of harness reachable (assumptions satisfiable, no unconditional failure)");
 }
